@@ -116,24 +116,6 @@ theorem witnessProgram_eq (s : Bytes) :
     simp only [h1, h1', ne_eq, not_false_eq_true, if_true, Bool.false_eq_true, if_false]
     split_ifs <;> rfl
 
-theorem constEncoder_short : ∀ e ∈ constEncoder, e.1.length ≤ 1 := by decide +kernel
-
-theorem sizedEncoder_find : ∀ n, 1 ≤ n → n ≤ 75 → sizedEncoder.find? (·.1 = n) = some (n, n) := by decide +kernel
-
-/-- `compile_push_data` of 2..75 bytes is the direct push `len ‖ data` = `CScript() << data` -/
-theorem compilePushData_direct (d : Bytes) (h2 : 2 ≤ d.length) (h75 : d.length ≤ 75) :
-    compilePushData d = .ok (pushData d) := by
-  unfold compilePushData pushData
-  have hc : constEncoder.find? (·.1 = d) = none := by
-    apply List.find?_eq_none.mpr
-    intro e he
-    have := constEncoder_short e he
-    intro heq
-    simp only [decide_eq_true_eq] at heq
-    rw [heq] at this; omega
-  have hlt : d.length < OP_PUSHDATA1 := by simp only [OP_PUSHDATA1]; omega
-  simp only [hc, sizedEncoder_find d.length (by omega) h75, hlt, if_true]
-
 variable (chk : Bytes → Bytes → Bytes → Bool → Bool)
 
 abbrev specTx (t : TxCtx) : Consensus.TxCtx := ⟨t.version, t.lockTime, t.sequence⟩
